@@ -6,6 +6,7 @@ import Proofs.C12.EC
 import Proofs.C12.PyTree
 import Proofs.C12.Control
 import Proofs.C12.Explicit
+import Proofs.C12.Glue
 import Proofs.E2E.CofactorOne
 /-!
 # C12 — taproot outputs commit to exactly their key and script tree (DESIGN.md §3 C12)
@@ -342,6 +343,26 @@ theorem soundness_explicit (hev : LiftEven o) {H : TagHash} (h32 : Len32 H) (tre
   ⟨soundness_explicit_aux hev h32 tree xb hxb htree q par s' c' hs' hq hc,
    fun _ _ h => h.collision, fun _ _ h => h.alias⟩
 
+/-- T6 (p2tr glue): `is_p2tr` accepts exactly `OP_1 ‖ 0x20 ‖ 32 octets` (34 octets; the three guards of `assert_p2tr`,
+    constants generated from its source); `ScriptPubKey.p2tr(key, tree)` refuses exactly when `output_pubkey` does and
+    otherwise answers a p2tr script whose witness program `script[2:]` IS the 32-octet output key — the `q` that T1 / T3
+    are stated about, so a control block proves its leaf against the scriptPubKey's own payload. -/
+theorem p2tr_script_carries_the_output_key (o : GroupOps α) (H : TagHash) (sec : Option Bytes) (tree : Option Tree) :
+    (∀ spk, isP2tr spk = true ↔ ∃ q, q.length = 32 ∧ spk = p2trScript q) ∧
+    (∀ e, scriptPubKeyP2tr o H sec tree = .error e ↔ outputPubkey o H sec tree = .error e) ∧
+    (∀ spk, scriptPubKeyP2tr o H sec tree = .ok spk →
+      ∃ q par, outputPubkey o H sec tree = .ok (q, par) ∧ q.length = 32 ∧ spk = p2trScript q ∧
+        isP2tr spk = true ∧ spk.drop 2 = q ∧ spk.length = 34) :=
+  ⟨isP2tr_iff, (scriptPubKeyP2tr_spec sec tree).1, (scriptPubKeyP2tr_spec sec tree).2⟩
+
+/-- T4p (the parity bit is compared, any group operations): a (script, control block) that verifies answers `False` —
+    not a refusal — once bit 0 of the block's first byte is flipped, everything else unchanged; with T4b: the verdict
+    reads the parity from that bit and nothing else. -/
+theorem parity_bit_is_compared (o : GroupOps α) (H : TagHash) (q s rest : Bytes) (c0 : UInt8)
+    (h : checkOutputPubkey o H q s (c0 :: rest) = .ok true) :
+    checkOutputPubkey o H q s ((c0 ^^^ 1) :: rest) = .ok false :=
+  parity_flip q s rest c0 h
+
 /-- T5 (`tree_helper` answers script trees and nothing else): a Python value is answered iff it is a well-formed
     script tree — every node a list or tuple of ONE `(int version, list script)` pair or of TWO well-formed nodes —
     and then the answer is `treeHelper` of the `Tree` it spells; every `Tree`, spelled with lists or with tuples, is
@@ -436,6 +457,11 @@ example : lengthGate 1 = .ok (-1) ∧ lengthGate 0 = .error .badlen ∧ lengthGa
 example : ltBytes [1, 2] [1, 2, 0] = true ∧ ltBytes [1, 255] [2] = true ∧ ltBytes [7] [7] = false := by decide
 example : TAG_LEAF ≠ TAG_BRANCH ∧ TAG_BRANCH ≠ TAG_TWEAK := by decide
 example : (0xC1 &&& LEAF_MASK = 0xC0) ∧ (0xC1 &&& PARITY_MASK = 1) := by decide
+-- T6: the three guards of `assert_p2tr`, and a script that passes them
+example : assertP2tr (p2trScript (List.replicate 32 7)) = none ∧ assertP2tr (p2trScript (List.replicate 31 7)) = some 0 ∧
+    assertP2tr (0 :: 0x20 :: List.replicate 32 7) = some 1 ∧ assertP2tr (0x51 :: 0x21 :: List.replicate 32 7) = some 2 := by
+  decide
+
 -- T5: `[[(0xC1, ["OP_1"])], ((-1, ["OP_2"]),)]` is a tree (versions read as 0xC0 and 0xFE); `[leaf, leaf, leaf]`, `[]`, `[[leaf]]` are not
 example : WellFormed (.two true (.one true (.two false (.int 0xC1) (.cmds 1 [0x51]))) (.one false (.two false (.int (-1)) (.cmds 1 [0x52]))))
     (.node (.leaf 0xC1 [0x51]) (.leaf 255 [0x52])) :=
